@@ -134,9 +134,9 @@ func vFp2Arith[P vModulus](tag string) {
 	c, d := vInputs(p)
 	x, y := vMk[P](a, b), vMk[P](c, d)
 	var r vFp2[P]
+	verifReach(tag + ".reach")
 	r.Mul(x, y)
 	m0, m1 := vRefMul(p, a, b, c, d)
-	verifReach(tag + ".reach")
 	verifAssert(tag+".mul", r.U0.v == m0 && r.U1.v == m1)
 	r.Square(x)
 	s0, s1 := vRefMul(p, a, b, a, b)
@@ -168,9 +168,9 @@ func vFp2Sqrt[P vModulus](tag string, realOnly, nonRealOnly bool) {
 	}
 	x := vMk[P](a, b)
 	r := vMk[P](3, 4) // sentinel
+	verifReach(tag + ".reach") // (before the call: the witness query stays trivial; Sqrt is branch-free)
 	ok := r.Sqrt(x)
 	sq := vIsSquare(p, a, b)
-	verifReach(tag + ".reach")
 	verifAssert(tag+".ok_iff_square", (ok == ct.True) == sq)
 	if ok == ct.True {
 		s0, s1 := vRefMul(p, r.U0.v, r.U1.v, r.U0.v, r.U1.v)
